@@ -19,6 +19,12 @@ indentation are the trivia assignment `gaps T` read off the text itself — and 
                                          printer always writes);
     `printed_ts_is_own_rendering`, `C16_roundtrip_own_parser_ts`, `…_tsext` — `parseTs (text (print doc)) = doc` up to positions.
 19. `server_module_roundtrip_own`     — all layers with nitrogql's own parser as the reader.
+
+"nitrogql's own parser" is everywhere the MODEL (`parseOp` / `parseTs`); that the model equals the real parser is C07's K
+stream. `own_parser_reads_lead_renderings` is also stated as a C07 theorem (`parse_render_type_system_document_lead` in
+`Props/C07Lead.lean`). Side conditions of the round-trip theorems: non-empty document, `WFDef` / `WFTsItem`, `NormalItem`,
+`itemOK`, `strsQ`; what lies outside them is OPEN (carried by K/O only) — see the OPEN block of `Props/C16.lean`; the
+counterexamples below show where the round trip is FALSE outside them (block string, double quote, `extend union U @d =`).
 -/
 namespace NitroVerif.C16Own
 open NitroVerif.Gql NitroVerif.GqlPrint NitroVerif.JsTemplate NitroVerif.Cook
